@@ -287,7 +287,7 @@ func (e *Engine) commitNew(op *COp, h ecs.Entity) *Violation {
 		}
 	}
 	e.touched[h] = true
-	e.log.U64(uint64(h.ID())<<32 | uint64(h.Generation()))
+	e.logEnt(h)
 	if e.listening() {
 		e.expEvents = append(e.expEvents, e.M.creationEvent(me))
 	}
@@ -348,7 +348,7 @@ func (e *Engine) discoverNew(s *Sys) []ecs.Entity {
 func (e *Engine) opNewBatch(c *cursor) *Violation {
 	op := &COp{Kind: "newbatch", Variant: "Builder.NewBatch", Rel: -1}
 	op.With = c.n(3) == 0
-	op.Q = c.n(3) == 0
+	op.Q = c.n(3) == 0 || e.forceQ
 	op.Count = 1 + c.n(8)
 	if c.n(10) == 0 {
 		op.Count = 1 + c.n(70)
